@@ -289,6 +289,9 @@ func GenCase(t *rapid.T, b Bias) Case {
 	// possibly a third sets it again
 	if c.Kind == "create" && len(c.Chain) >= 2 && rapid.IntRange(0, 99).Draw(t, "release") < b.Release {
 		forceRelease(t, &c)
+		if rapid.IntRange(0, 2).Draw(t, "release2") == 0 {
+			forceRelease(t, &c)
+		}
 	}
 	if b.MaxPar > 1 {
 		c.Par = rapid.IntRange(1, b.MaxPar).Draw(t, "par")
@@ -363,34 +366,48 @@ func forceCollision(t *rapid.T, c *Case, i, j int) {
 	}
 }
 
+// forceRelease writes a conflict-free "story" for one removable item across the chain: each
+// participating plugin, in chain order, lone-removes it, sets it (only while nobody owns
+// it) or removes-then-sets it. This produces every order of releases and claims: removal
+// before the first set, repeated removals, set / remove / set by three plugins, a reset of
+// a reset, and so on.
 func forceRelease(t *rapid.T, c *Case) {
-	fam := rapid.SampledFrom([]string{"ann", "env", "mount", "dev", "args"}).Draw(t, "rfam")
-	key := rapid.SampledFrom(keysOf(fam)).Draw(t, "rkey")
-	n := len(c.Chain)
-	i := rapid.IntRange(0, n-2).Draw(t, "ri")
-	j := rapid.IntRange(i+1, n-1).Draw(t, "rj")
-	setOp := func(s *Script, act string) {
-		rev := act == "reset" && fam != "ann" && fam != "args" && rapid.Bool().Draw(t, "rrev")
-		if k := hasOp(s, fam, key); k >= 0 {
-			s.Ops[k].Act = act
-			s.Ops[k].Rev = rev
+	fam := gen.Pick(t, "rfam", []string{"ann", "env", "mount", "dev", "args"})
+	key := gen.Pick(t, "rkey", keysOf(fam))
+	owned := false
+	participants := 0
+	for i := range c.Chain {
+		s := &c.Chain[i]
+		last := i == len(c.Chain)-1
+		if !(rapid.IntRange(0, 9).Draw(t, "rjoin") < 7 || (last && participants < 2)) {
+			// a bystander must not touch the item at all
+			if k := hasOp(s, fam, key); k >= 0 {
+				s.Ops = append(s.Ops[:k], s.Ops[k+1:]...)
+			}
+			continue
+		}
+		participants++
+		var acts []string
+		if fam == "args" {
+			acts = []string{"reset"}
+			if !owned {
+				acts = append(acts, "set")
+			}
 		} else {
-			s.Ops = append(s.Ops, Op{Fam: fam, Key: key, Act: act, Rev: rev})
+			acts = []string{"del", "reset"}
+			if !owned {
+				acts = append(acts, "set", "set")
+			}
 		}
-	}
-	setOp(&c.Chain[i], "set")
-	act := rapid.SampledFrom([]string{"del", "reset"}).Draw(t, "ract")
-	if fam == "args" {
-		act = "reset"
-	}
-	setOp(&c.Chain[j], act)
-	if j < n-1 && rapid.Bool().Draw(t, "rthird") {
-		k := rapid.IntRange(j+1, n-1).Draw(t, "rk")
-		a3 := "set"
-		if act == "reset" { // the re-setter now owns it: a third plugin must release again
-			a3 = "reset"
+		act := gen.Pick(t, "ract", acts)
+		rev := act == "reset" && fam != "ann" && fam != "args" && rapid.Bool().Draw(t, "rrev")
+		op := Op{Fam: fam, Key: key, Act: act, Rev: rev}
+		if k := hasOp(s, fam, key); k >= 0 {
+			s.Ops[k] = op
+		} else {
+			s.Ops = append(s.Ops, op)
 		}
-		setOp(&c.Chain[k], a3)
+		owned = act != "del"
 	}
 }
 
